@@ -508,6 +508,38 @@ Theorem www_challenge_recorded m cause :
   end.
 Proof. destruct m as [|code [url|]|realm]; reflexivity. Qed.
 
+(** a redirect handler that the loader created has a code in 300..399 (302 when
+    unset): a valid status that is never a success status, so the hypothesis "no
+    redirect code is 1xx/2xx" is guaranteed for the redirect MECHANISM (it remains
+    a hypothesis for RedirectError values built by other means) *)
+Theorem created_redirect_code c o code to m cause :
+  create_redirect code to = Some m ->
+  m = MRedirect code to /\ 300 <= redirect_status code <= 399 /\
+  valid_code (redirect_status code) = true /\ success_like (redirect_status code) = false /\
+  (redirects_not_success cause -> scenario_redirects_not_success (ScHandled m cause)) /\
+  (forall url, to = Some url ->
+     http_respond c o (ScHandled m cause) =
+       HFinal (redirect_status code) {| h_location := Some url; h_www := None; h_ctype := None |} false).
+Proof.
+  unfold create_redirect, redirect_code_ok. destruct ((code =? 0) || ((300 <=? code) && (code <=? 399))) eqn:E; [|discriminate].
+  intro H; inversion H; subst. clear H.
+  assert (R : 300 <= redirect_status code <= 399).
+  { unfold redirect_status. destruct (code =? 0) eqn:Z0; [lia|]. simpl in E. lia. }
+  assert (V : valid_code (redirect_status code) = true) by (unfold valid_code; lia).
+  assert (S : success_like (redirect_status code) = false) by (unfold success_like; lia).
+  split; [reflexivity|]. split; [exact R|]. split; [exact V|]. split; [exact S|]. split.
+  - intro Hc. simpl. split; [exact Hc|]. unfold redirect_status in S.
+    destruct (code =? 0) eqn:Z0; [|exact S]. apply Z.eqb_eq in Z0. subst. reflexivity.
+  - intros url ->. apply (proj1 (redirect_handler_response c o code url cause)). exact V.
+Qed.
+
+Theorem success_redirect_not_creatable to :
+  create_redirect 200 to = None /\ create_redirect 5 to = None /\ create_redirect (-1) to = None /\
+  create_redirect 1000 to = None /\ create_redirect 299 to = None /\ create_redirect 400 to = None /\
+  create_redirect 300 to = Some (MRedirect 300 to) /\ create_redirect 399 to = Some (MRedirect 399 to) /\
+  create_redirect 0 to = Some (MRedirect 0 to).
+Proof. repeat split; reflexivity. Qed.
+
 (** a www_authenticate handler's answer has the authentication status ... *)
 Theorem www_authenticate_status c o realm cause :
   (valid_code (http_code (ov_authn c) 401) = true ->
